@@ -3,6 +3,7 @@ CONSTANTS
   MaxWorkers = 2
   Runtimes = {"threaded", "tokio"}
   MaxReq = 1
+  Kinds = {"close", "keep"}
   Dev = {}
 SPECIFICATION Spec
 INVARIANTS TypeOK Inv_PortFree Inv_ServingBefore Inv_NoTruncation Inv_Owned Inv_DispatchedKept Inv_WakeUnserved
